@@ -9,6 +9,9 @@ class Server:
         self.p = None
         self.requests = 0
         self.restarts = 0
+        import os
+        lp = os.environ.get("CFVERIF_LOG_REQUESTS")
+        self.log = open(lp, "a") if lp else None
         self._start()
 
     def _start(self):
@@ -19,6 +22,8 @@ class Server:
         """One request, one reply. A dead server (abort, not a panic) answers 'abort'."""
         assert "\n" not in line
         self.requests += 1
+        if self.log is not None and self.name.startswith("impl"):
+            self.log.write(line + "\n")
         try:
             self.p.stdin.write(line + "\n")
             self.p.stdin.flush()
